@@ -13,7 +13,26 @@ DEFAULT_KNOBS = {
     'charref': 'raw',      # raw | dec | hex   (non-ASCII characters)
     'quote': '"',
     'empty': 'pair',       # pair | self
+    'comments': 0,         # 0 | n: comments and processing instructions at every n-th eligible place
 }
+
+_NOISE = ['<!-- note -->', '<?verif x="1"?>', '<!---->', '<!-- <p>not a tag</p> & -->']
+
+
+class _Noise:
+    """Deterministic source of comments / processing instructions (knob 'comments')."""
+
+    def __init__(self, n):
+        self.n = n
+        self.i = 0
+
+    def take(self):
+        if not self.n:
+            return ''
+        self.i += 1
+        if self.i % (self.n + 1) == 0:
+            return _NOISE[(self.i // (self.n + 1)) % len(_NOISE)]
+        return ''
 
 
 def _esc_chars(s, knobs, enc):
@@ -37,9 +56,14 @@ def _esc_chars(s, knobs, enc):
     return ''.join(out)
 
 
-def _text(s, knobs, enc):
+def _text(s, knobs, enc, noise=None):
     if not s:
         return ''
+    if noise is not None and len(s) >= 2:
+        c = noise.take()
+        if c:
+            h = len(s) // 2
+            return _text(s[:h], knobs, enc) + c + _text(s[h:], knobs, enc)
     if knobs.get('cdata') and any(c in s for c in '&<>') and ']]>' not in s \
             and (enc.startswith('utf') or all(ord(c) < 128 for c in s)):
         return '<![CDATA[' + s + ']]>'
@@ -62,7 +86,7 @@ def _mixed(node):
     return any(c[3] and c[3].strip(WS) for c in node[4])
 
 
-def _ser(node, knobs, enc, pad, depth, out, pretty):
+def _ser(node, knobs, enc, pad, depth, out, pretty, noise=None):
     tag, attrs, text, tail, children = node
     out.append('<' + tag)
     for k in attrs:
@@ -75,13 +99,15 @@ def _ser(node, knobs, enc, pad, depth, out, pretty):
         if inner_pretty:
             for c in children:
                 out.append('\n' + pad * (depth + 1))
-                _ser(c, knobs, enc, pad, depth + 1, out, True)
+                if noise is not None:
+                    out.append(noise.take())
+                _ser(c, knobs, enc, pad, depth + 1, out, True, noise)
             out.append('\n' + pad * depth)
         else:
-            out.append(_text(text, knobs, enc))
+            out.append(_text(text, knobs, enc, noise))
             for c in children:
-                _ser(c, knobs, enc, pad, depth + 1, out, False)
-                out.append(_text(c[3], knobs, enc))
+                _ser(c, knobs, enc, pad, depth + 1, out, False, noise)
+                out.append(_text(c[3], knobs, enc, noise))
         out.append('</%s>' % tag)
 
 
@@ -97,7 +123,12 @@ def render(node, knobs=None):
         out.append('<?xml version="1.0" encoding="%s"?>' % enc)
         if ind is not None:
             out.append('\n')
-    _ser(node, k, enc, pad, 0, out, ind is not None)
+    noise = _Noise(int(k.get('comments') or 0)) if k.get('comments') else None
+    if noise is not None:
+        out.append(noise.take())
+    _ser(node, k, enc, pad, 0, out, ind is not None, noise)
+    if noise is not None:
+        out.append(noise.take())
     if ind is not None:
         out.append('\n')
     return ''.join(out)
